@@ -404,6 +404,17 @@ func (b *e2eBase) scenario(committee []int, msg []byte, tally *engine.Tally) {
 			bads = append(bads, bad{"wrong-signer-address", am.MemberID, good, oaddr})
 			break
 		}
+		// malformed encodings of the correct share: a share is exactly 33 bytes R || 32 bytes z
+		bads = append(bads, bad{"trailing-byte", am.MemberID, append(append(tss.Signature{}, good...), 0x00), addr})
+		bads = append(bads, bad{"trailing-32-bytes", am.MemberID, append(append(tss.Signature{}, good...), make([]byte, 32)...), addr})
+		bads = append(bads, bad{"truncated-by-one", am.MemberID, append(tss.Signature{}, good[:len(good)-1]...), addr})
+		bads = append(bads, bad{"empty", am.MemberID, tss.Signature{}, addr})
+		// z + n: the same residue, not a canonical scalar (when it still fits 32 bytes)
+		zn := new(big.Int).SetBytes(good.S())
+		zn.Add(zn, curveN)
+		if zn.BitLen() <= 256 {
+			bads = append(bads, bad{"scalar-plus-group-order", am.MemberID, append(append(tss.Signature{}, good.R()...), pad32(zn.Bytes())...), addr})
+		}
 		// a non-assigned member id / stranger
 		bads = append(bads, bad{"stranger-signer", am.MemberID, good, bandtesting.Bob.Address.String()})
 		before := w.HashStores(ctx, []string{"tss", "bandtss", "bank"}, nil)
